@@ -377,4 +377,37 @@ Supported(m, st, r, a, cbk) ==
                     /\ IF cbk.kind = "fn" /\ cbk.cmp \notin {"undef", "one", "neg", "nan", "str", "alt"}
                        THEN \A i \in 1..Len(st[r]) : st[r][i].k = "undef" \/ (st[r][i].k = "num" /\ WIsSmallInt(st[r][i].w) /\ IntOf(st[r][i]) >= 0)
                        ELSE StrOK(st, Ref(r)))
+\* ---- element access BY PROPERTY KEY (family K; added in round 3, nothing above is changed) ------------------------
+\* a[k] and a[k] = v take ANY key value: the property name is ToPropertyKey(k) = ToString(k) for a primitive.  Only the
+\* canonical decimal text of a non-negative integer names an element ("1", the number 1, -0); true / false / null / undefined /
+\* "x" / "01" / "-1" / 1.5 / NaN name ordinary properties and never touch the elements.
+\* key state ks = [el |-> elements, pr |-> <<[n |-> name (code units), v |-> value]>> (own named properties, creation order)]
+KeyU(kv) == IF kv.k = "num" THEN NumTextX(kv.w) ELSE JS!ToStrU(kv)
+KeyOK(kv) == kv.k \in {"undef", "null", "bool", "str"} \/ (kv.k = "num" /\ NumTextOK(kv.w))
+RECURSIVE DigVal(_)
+DigVal(u) == IF u = <<>> THEN 0 ELSE DigVal(SubSeq(u, 1, Len(u) - 1)) * 10 + (u[Len(u)] - 48)
+KeyIndex(u) == IF u # <<>> /\ Len(u) <= 9 /\ (\A i \in 1..Len(u) : u[i] \in 48..57) /\ (Len(u) = 1 \/ u[1] # 48) THEN DigVal(u) ELSE -1
+\* names whose lookup is not an own data property of the array (length, the methods): not enumerated
+ReservedKey(u) == u \in {U("length"), U("push"), U("pop"), U("join"), U("toString"), U("constructor"), U("__proto__")}
+\* the engine's array mode refuses to create a property whose name is the text of a number that is not an index
+\* (NaN, the infinities, 1.5): "stricter mode" by its own comments; ECMA-262 creates the property.  Both are accepted.
+StrictRejectKey(kv) == kv.k = "num" /\ (WIsNaN(kv.w) \/ WIsInf(kv.w) \/ ~WIsSmallInt(kv.w))
+PropGet(pr, u) == LET S == {i \in 1..Len(pr) : pr[i].n = u} IN IF S = {} THEN Undef ELSE pr[CHOOSE i \in S : TRUE].v
+PropSet(pr, u, v) == IF \E i \in 1..Len(pr) : pr[i].n = u THEN [i \in 1..Len(pr) |-> IF pr[i].n = u THEN [n |-> u, v |-> v] ELSE pr[i]]
+                     ELSE Append(pr, [n |-> u, v |-> v])
+KeyGet(kv, ks) == LET u == KeyU(kv)  i == KeyIndex(u)
+                  IN IF i >= 0 THEN (IF i < Len(ks.el) THEN ks.el[i + 1] ELSE Undef) ELSE PropGet(ks.pr, u)
+KR(out, ks) == [out |-> out, ks |-> ks]
+\* ev = [op |-> "get" | "set", k |-> key value, v |-> stored value]  ->  the sequence of acceptable [out, ks] (the first is ECMA-262)
+KeyStep(ev, ks) ==
+  LET u == KeyU(ev.k)  i == KeyIndex(u)  len == Len(ks.el)
+  IN IF ev.op = "get" THEN <<KR(ValOut(KeyGet(ev.k, ks)), ks)>>
+     ELSE IF i >= 0 THEN (IF i < len THEN <<KR(ValOut(ev.v), [ks EXCEPT !.el = [ks.el EXCEPT ![i + 1] = ev.v]])>>
+                          ELSE IF i = len THEN <<KR(ValOut(ev.v), [ks EXCEPT !.el = Append(ks.el, ev.v)])>>
+                          ELSE <<KR(ErrOut("any"), ks)>>)                      \* stricter mode: an error further out, nothing changes
+     ELSE <<KR(ValOut(ev.v), [ks EXCEPT !.pr = PropSet(ks.pr, u, ev.v)])>>
+          \o (IF StrictRejectKey(ev.k) THEN <<KR(ErrOut("any"), ks)>> ELSE <<>>)
+KeyEvOK(ev) == KeyOK(ev.k) /\ ~ReservedKey(KeyU(ev.k)) /\ ev.op \in {"get", "set"}
+RECURSIVE KeyRunRef(_, _, _)
+KeyRunRef(evs, k, ks) == IF k > Len(evs) THEN ks ELSE KeyRunRef(evs, k + 1, KeyStep(evs[k], ks)[1].ks)
 =============================================================================
